@@ -86,7 +86,8 @@ Inductive action :=
 | AAwaitExt (k : nat)             (* await an environment-owned future *)
 | ACtl (c : ctl)                  (* a control call on self *)
 | ACallSoon (cb : nat)            (* self.call_soon(callback number cb) *)
-| AObserve.                       (* record paused / status *)
+| AObserve                        (* record paused / status *)
+| AStatus (s : option string).    (* self.set_status(s) *)
 
 Inductive sret :=
 | RContinue (f : string) (args : list val) (kwargs : list (string * val))
@@ -236,7 +237,14 @@ Definition cancel_act (id : nat) : LM unit :=
 (* _set_interrupt_action *)
 Definition set_interrupt_action (new : option nat) : LM unit :=
   w <- get ;;
-  match intr w with Some old => cancel_act old | None => ret tt end ;;;
+  match intr w with
+  | Some old =>
+      cancel_act old ;;;
+      (* a cancelled action is no longer a pending pause / kill *)
+      modify (fun w => w <| pausing := (match pausing w with Some a => if Nat.eqb a old then None else Some a | None => None end) |>
+                         <| killing := (match killing w with Some a => if Nat.eqb a old then None else Some a | None => None end) |>)
+  | None => ret tt
+  end ;;;
   modify (fun w => w <| intr := new |>).
 
 (* _create_interrupt_action + _set_interrupt_action_from_exception; returns the action id *)
@@ -306,7 +314,13 @@ Section Reentrant.
         hook "on_kill" ;;;
         let txt := match msg with Some (Some t) => t | _ => "" end in
         modify (fun w => w <| status := Some txt |>) ;;;
-        pfut_set (PfExn (EKilled txt)) ;;; ret None
+        (* killed because the future was cancelled: the outcome is reported through a new future *)
+        w <- get ;;
+        (match pfut w with
+         | PfCancelled => put (w <| pfut := PfExn (EKilled txt) |> <| pfut_original := false |>)
+         | _ => pfut_set (PfExn (EKilled txt))
+         end) ;;;
+        ret None
     | SExcepted e =>
         hook "on_except" ;;;
         (* a future that is already done is replaced by a fresh one *)
@@ -436,7 +450,7 @@ Section Reentrant.
     match st w with
     | Some (SWaiting fn msg data wid wf) =>
         match wf with
-        | WfDone _ => raise EInvalidState            (* set_exception on a done future *)
+        | WfDone _ => ret tt                         (* already resumed / interrupted: nothing to deliver *)
         | WfPending =>
             put (w <| st := Some (SWaiting fn msg data wid (WfDone (WkIntr iid))) |>) ;;;
             match t0 w with
@@ -469,6 +483,7 @@ Section Reentrant.
         match pausing w with
         | Some a => ret (CrAction a)
         | None =>
+            match killing w with Some _ => ret (CrBool false) | None =>
             if stepping w then
               iid <- fresh ;;
               a <- set_interrupt_action_from (KPause msg) iid ;;
@@ -476,6 +491,7 @@ Section Reentrant.
               state_interrupt iid ;;;
               ret (CrAction a)
             else b <- do_pause msg None ;; ret (CrBool b)
+            end
         end
     end.
 
@@ -525,10 +541,15 @@ Section Reentrant.
     w <- get ;;
     match st w with
     | Some (SWaiting fn msg data wid wf) =>
+        let wk := match v with Some x => WkVal x | None => WkNull end in
         match wf with
+        | WfDone (WkIntr _) =>
+            (* interrupted, execute() has not dealt with it yet: the wake-up goes into a fresh waiting future *)
+            wid' <- fresh ;;
+            modify (fun w => w <| st := Some (SWaiting fn msg data wid' (WfDone wk)) |>) ;;;
+            ret CrNone
         | WfDone _ => ret CrNone
         | WfPending =>
-            let wk := match v with Some x => WkVal x | None => WkNull end in
             put (w <| st := Some (SWaiting fn msg data wid (WfDone wk)) |>) ;;;
             match t0 w with
             | PcAwaitWaiting wid' => when (Nat.eqb wid wid') (schedule (RWakeT0 wk))
@@ -673,6 +694,7 @@ Fixpoint run_actions (acts : list action) (r : sret) : LM step_out :=
           w <- get ;;
           emit (EvObserve (match paused w with Some _ => true | None => false end) (status w)) ;;;
           run_actions rest r
+      | AStatus s => modify (fun w => w <| status := s |>) ;;; run_actions rest r
       end
   end.
 
@@ -699,15 +721,17 @@ Definition after_run_fn (o : step_out) : LM exec_out :=
   end.
 
 (* Waiting.execute once the waiting future is done *)
-Definition after_waiting (fn : option string) (wk : wake) : LM exec_out :=
+Definition after_waiting (fn : option string) (awaited : nat) (wk : wake) : LM exec_out :=
   match wk with
   | WkIntr iid =>
-      (* `except Interruption: self._waiting_future = Future(); raise` *)
+      (* `except Interruption: if self._waiting_future is future: self._waiting_future = Future(); raise` *)
       w <- get ;;
       match st w with
-      | Some (SWaiting f m d _ _) =>
-          wid <- fresh ;;
-          modify (fun w => w <| st := Some (SWaiting f m d wid WfPending) |>) ;;; ret (XoInterrupted iid)
+      | Some (SWaiting f m d cur _) =>
+          if Nat.eqb cur awaited then
+            wid <- fresh ;;
+            modify (fun w => w <| st := Some (SWaiting f m d wid WfPending) |>) ;;; ret (XoInterrupted iid)
+          else ret (XoInterrupted iid)
       | _ => ret (XoInterrupted iid)
       end
   | WkExn e => ret (XoRaised e)
@@ -728,7 +752,7 @@ Definition execute_state : LM exec_out :=
       end
   | Some (SWaiting fn _ _ wid wf) =>
       match wf with
-      | WfDone wk => after_waiting fn wk
+      | WfDone wk => after_waiting fn wid wk
       | WfPending => set_t0 (PcAwaitWaiting wid) ;;; ret XoSuspended
       end
   | Some _ => ret (XoNext None)
@@ -744,11 +768,13 @@ Definition finish_step (x : exec_out) : LM unit :=
        | XoNext ns => ret ns
        | XoInterrupted iid =>
            w <- get ;;
-           let same := match intr w with
+           (* keep the pending action if it is the one of this interruption, or if a kill is pending *)
+           let keep := match intr w with
                        | Some a => match get_act w a with Some ac => Nat.eqb (a_cookie ac) iid | None => false end
+                                   || (match killing w with Some _ => true | None => false end)
                        | None => false
                        end in
-           (if same then ret tt
+           (if keep then ret tt
             else
               (* rebuild the action from the exception: we need its kind; the interruption ids are the
                  cookies of the actions ever created *)
@@ -798,12 +824,17 @@ Definition resume_t0 (wk : wake) : LM unit :=
   match t0 w with
   | PcNotStarted => loop_head chain_fuel
   | PcAwaitPaused _ =>
-      (* no re-check of `paused` after the await *)
-      modify (fun w => w <| stepping := true |>) ;;;
-      x <- execute_state ;;
-      match x with
-      | XoSuspended => ret tt
-      | _ => finish_step x ;;; loop_head chain_fuel
+      (* `while self._paused is not None and not self._paused.done(): await self._paused`: paused again meanwhile
+         (a new, pending future; the future of a terminated process has been released) -> wait again *)
+      match paused w, is_terminated w with
+      | Some fid, false => set_t0 (PcAwaitPaused fid)
+      | _, _ =>
+          modify (fun w => w <| stepping := true |>) ;;;
+          x <- execute_state ;;
+          match x with
+          | XoSuspended => ret tt
+          | _ => finish_step x ;;; loop_head chain_fuel
+          end
       end
   | PcInStep rest r aw =>
       o <- match wk with
@@ -815,11 +846,11 @@ Definition resume_t0 (wk : wake) : LM unit :=
       | XoSuspended => ret tt
       | _ => finish_step x ;;; loop_head chain_fuel
       end
-  | PcAwaitWaiting _ =>
+  | PcAwaitWaiting awaited =>
       w <- get ;;
       x <- match st w with
-           | Some (SWaiting fn _ _ _ _) => after_waiting fn wk
-           | _ => after_waiting None wk
+           | Some (SWaiting fn _ _ _ _) => after_waiting fn awaited wk
+           | _ => after_waiting None awaited wk
            end ;;
       finish_step x ;;; loop_head chain_fuel
   | PcDone | PcFailed _ => ret tt
